@@ -10,9 +10,18 @@ QUERIES = [
   Q('sanitize_len3', 'C04_sanitize.cpp', 'h_sanitize', defines=['SLEN=3'], models=['m_throw.c'], libmodels=['m_string.c', 'm_env.c'], unwind=16, byteloops=True, timeout=280,
     bounds='every byte string of length 3 (2^24 strings) through the real sanitize_non_printable_chars with the default BackendOptions::check_printable_char',
     what='output == reference escape (printable and \\n kept, everything else \\xHH upper-case)'),
+  Q('argstore_flag', 'C04_argstore.cpp', 'h_argstore_flag', models=['m_throw.c'], libmodels=['m_string.c', 'm_env.c', 'm_stl.c'], unwind=10, byteloops=True, forbid=[r'17_M_realloc_insert', r'14DynamicArgList(4Node|9TypedNodeI.*)D[012]Ev$'],
+    bounds='one argument of type char / char const* / std::string_view / fmt string_view (symbolic byte), alone or preceded and/or followed by numeric arguments',
+    what='real DynamicFormatArgStore::push_back raises has_string_related_type() for every argument type that can carry a non-printable character - the condition under which the backend runs the sanitiser on the formatted message'),
+  Q('deferred_align', 'C04_deferred.cpp', 'h_align', models=['m_throw.c'], libmodels=['m_string.c', 'm_env.c'], unwind=10,
+    bounds='any 64-bit address, alignment 1..64 (powers of two)',
+    what='real DeferredFormatCodec::align_pointer returns the smallest aligned address >= p (an already aligned address is kept)'),
+  Q('deferred_roundtrip', 'C04_deferred.cpp', 'h_deferred', hooks=[r'13align_pointerEPvm=vh_align'], models=['m_throw.c'], libmodels=['m_string.c', 'm_env.c'], unwind=66,
+    bounds='a 16-byte, 8-aligned, not trivially copyable type whose last byte is significant, all bytes symbolic; record start at any offset 0..15 of a 64-byte aligned buffer; align_pointer = the contract decided by deferred_align',
+    what='real DeferredFormatCodec encode/decode_arg (placement-new path): written == consumed == reserved, no byte outside the reservation is touched, the decoded object equals the original even after the bytes behind the reservation were overwritten'),
 ]
 BOUNDS = 'listed instantiations, strings <= 5 bytes; sanitiser strings of 3 bytes'
-OUTSIDE = 'that libfmt renders equal values to equal text (trusted: deterministic function of template, types and values); std container / optional / pair / tuple / chrono / path codecs, DeferredFormatCodec, DirectFormatCodec, nested containers, wchar_t'
+OUTSIDE = 'that libfmt renders equal values to equal text (trusted: deterministic function of template, types and values); std container / optional / pair / tuple / chrono / path codecs, DeferredFormatCodec for other types than the bounded one, DirectFormatCodec, nested containers, wchar_t'
 ASSUMPTIONS = ['call-site text == backend text is reduced to: decoded argument values are bit-identical to the originals + identical template + deterministic libfmt']
 MANIFEST = {
  'text': 'Codec and sanitiser part only: the solver decides, for the listed argument lists with all values symbolic, that size computation, encoder and decoder of the real Codec<T> agree byte for byte through the real log_statement and queue (reserved == written == consumed, values bit-identical, views into the queue), and that the real sanitiser equals a reference escape on every 3-byte string.',
